@@ -15,21 +15,23 @@ import (
 )
 
 type JMember struct {
-	N     B     `json:"n"`     // member name bytes (arrays: empty)
-	NIsInt bool `json:"nisint"` // name is a decimal int64 literal
-	NI    B     `json:"ni"`    // its value (8 bytes) when NIsInt
-	V     JDump `json:"v"`
+	N      B     `json:"n"`      // member name bytes (arrays: empty)
+	NIsInt bool  `json:"nisint"` // name is a decimal int64 literal
+	NI     B     `json:"ni"`     // its value (8 bytes) when NIsInt
+	V      JDump `json:"v"`
 }
 type JDump struct {
 	K     string    `json:"k"` // null bool num str arr obj
 	B     B         `json:"b"` // str: content bytes; bool: [0|1]
 	IsInt bool      `json:"isint"`
-	I     B         `json:"i"` // num/str: int64 value when IsInt
-	F     B         `json:"f"` // num: float64 bits
+	I     B         `json:"i"`    // num/str: int64 value when IsInt
+	F     B         `json:"f"`    // num: float64 bits
+	FInt  bool      `json:"fint"` // num: the value is integral and fits int64
+	FI    B         `json:"fi"`   // that integer
 	E     []JMember `json:"e"`
 }
 
-func jd(k string) JDump { return JDump{K: k, B: B{}, I: be8(0), F: be8(0), E: []JMember{}} }
+func jd(k string) JDump { return JDump{K: k, B: B{}, I: be8(0), F: be8(0), FI: be8(0), E: []JMember{}} }
 
 type jparser struct {
 	s []byte
@@ -228,7 +230,10 @@ func (j *jparser) num() (JDump, error) {
 	if isInt {
 		if n, e := strconv.ParseInt(lit, 10, 64); e == nil {
 			d.IsInt, d.I = true, be8(n)
+			d.FInt, d.FI = true, be8(n)
 		}
+	} else if f == math.Trunc(f) && math.Abs(f) < 9.2e18 {
+		d.FInt, d.FI = true, be8(int64(f))
 	}
 	return d, nil
 }
